@@ -55,6 +55,7 @@ def make_script(rng, n=5):
 
 
 def gen_cases(tier, seed):
+    from vf.algos import random_options
     rng = np.random.default_rng(seed + 1111)
     cases = []
     reps = 1 if tier == "quick" else 20
@@ -72,6 +73,8 @@ def gen_cases(tier, seed):
                          learning_starts=int(rng.choice(
                              [script[0][0], script[0][0] + 1, 6, 9, 60])),
                          seed=int(rng.integers(1 << 20)), cost=COST.get(algo, 2))
+                if rng.random() < 0.5:  # documented non-default options
+                    c["options"] = random_options(algo, rng)
                 if v == "episodes":
                     if algo not in HAS_EP:
                         continue
